@@ -87,6 +87,9 @@ MacroBad(o) ==
                                    # [j \in DOMAIN o.want_props |-> <<o.want_props[j][1], o.want_props[j][2]>>] THEN "span-properties"
   ELSE IF Len(inner) # c.spans.inner \/ \E k \in DOMAIN inner : inner[k].parent # o.want_name THEN "inner-span"
   ELSE IF other # <<>> THEN "extra-span"
+  \* an async-trait method called under one local parent (rootA), its future polled under another
+  ELSE IF c.kind = "atrait" /\ \E k \in DOMAIN o.split : o.split[k].name \notin {"inner"} /\ o.split[k].parent # "rootA" THEN "span-parent-not-the-callers"
+  ELSE IF c.kind = "atrait" /\ Len(SelectSeq(o.split, LAMBDA r : r.name # "inner")) # c.spans.own THEN "span-lost-when-polled-elsewhere"
   ELSE "ok"
 
 Check(o) ==
